@@ -2,9 +2,10 @@
 import ast
 
 from .. import rules_unif as ru
-from ..core import AnalysisError, src
-from ..pysym import SymExec, show, subterms
+from ..core import AnalysisError, src, qualname_of
+from ..pysym import SymExec, show, subterms, self_call_pred, own_params, mark_self_calls, alternatives, all_calls, str_parts
 from ..rules_pyx import N, C, A
+from .. import logic
 
 EXPLANATION = (
     'Typestate analysis of the matcher on both sides of its interface (R6.1 provider: Unification.__call__ tests '
@@ -25,14 +26,31 @@ CAT = 'depccg/cat.py'
 
 
 def matcher_helpers(mod):
-    """-> (scan, scan_deep): the nested helpers of Unification.__call__, found by role (arity and recursion), not by name"""
+    """-> (scan, scan_deep): the recursive helpers of the matcher -- closures of Unification.__call__ or methods of the
+    class -- found by role (self-recursive; 3 own parameters = structural scan, 4 = leaf numbering), not by name"""
     call = mod.get('Unification.__call__')
+    cls = mod.get('Unification')
     from ..core import enclosing_function
-    nested = [n for n in ast.walk(call) if isinstance(n, ast.FunctionDef) and n is not call and enclosing_function(n) is call]
-    scan = [n for n in nested if len(n.args.args) == 3]
-    deep = [n for n in nested if len(n.args.args) == 4]
+    cands = [n for n in ast.walk(call) if isinstance(n, ast.FunctionDef) and n is not call and enclosing_function(n) is call]
+    cands += [n for n in cls.body if isinstance(n, ast.FunctionDef) and not (n.name.startswith('__') and n.name.endswith('__'))]
+    cands += [n for n in mod.tree.body if isinstance(n, ast.FunctionDef)]
+    rec = []
+    for fn in cands:
+        pred = self_call_pred(fn)
+        ex = SymExec(fn, inline=False)
+        is_rec = False
+        for n in ast.walk(fn):
+            if isinstance(n, ast.Call):
+                f = n.func
+                t = ('name', f.id) if isinstance(f, ast.Name) else (('attr', ('name', f.value.id), f.attr) if isinstance(f, ast.Attribute) and isinstance(f.value, ast.Name) else None)
+                if t is not None and pred(t):
+                    is_rec = True
+        if is_rec:
+            rec.append(fn)
+    scan = [n for n in rec if len(own_params(n)) == 3]
+    deep = [n for n in rec if len(own_params(n)) == 4]
     if len(scan) != 1 or len(deep) != 1:
-        raise AnalysisError('%s: cannot identify the structural scan (3 parameters) and the leaf scan (4 parameters) inside Unification.__call__' % UNI)
+        raise AnalysisError('%s: cannot identify the structural scan (recursive, 3 parameters) and the leaf numbering (recursive, 4 parameters) of the matcher' % UNI)
     return scan[0], deep[0]
 
 
@@ -45,51 +63,107 @@ def flat(t, op):
     return [t]
 
 
-def r_scan(repo, rep, R='R6.3'):
-    mod = repo.module(UNI)
-    scan, _deep = matcher_helpers(mod)
-    s, t, res = [a.arg for a in scan.args.args][:3]
-    S_, T_ = N(s), N(t)
-    w = '%s:%s Unification.__call__.%s' % (UNI, scan.lineno, scan.name)
-    paths = SymExec(scan, init_env={scan.name: ('func', scan.name, id(scan))}).run()
-    shared_fail = ff = fa = False
-    detail_ff = ''
+def _bool_paths(fn, **kw):
+    """[(conds, value-or-tag)] of a boolean helper, recursive calls marked, conditional expressions split"""
+    vals = []
+    paths = SymExec(fn, **kw).run()
     for st, out in paths:
-        conds = [(e[1], e[2]) for e in st.events if e[0] == 'branch']
-        for c, pol in conds:
-            atoms = [show(x) for x in flat(c, 'and')]
-            if pol and show(('cmp', 'in', A(S_, 'base'), A(N('self'), 'cats'))) in atoms and \
-                    show(('unop', 'not', ('binop', '^', T_, ('sub', A(N('self'), 'cats'), A(S_, 'base'))))) in atoms \
-                    and st.ret == C(False):
-                shared_fail = True
-            if pol and show(A(S_, 'is_functor')) in atoms and show(A(T_, 'is_functor')) in atoms:
-                rest = [x for x in flat(c, 'and') if x not in (A(S_, 'is_functor'), A(T_, 'is_functor'))]
-                slash_ok = False
-                if len(rest) == 1:
-                    ors = {show(x) for x in flat(rest[0], 'or')}
-                    eq = {show(('cmp', '==', A(S_, 'slash'), A(T_, 'slash'))), show(('cmp', '==', A(T_, 'slash'), A(S_, 'slash')))}
-                    wild = {show(('cmp', 'in', C('|'), ('tuple', (A(S_, 'slash'), A(T_, 'slash'))))),
-                            show(('cmp', 'in', C('|'), ('tuple', (A(T_, 'slash'), A(S_, 'slash')))))}
-                    slash_ok = bool(ors & eq) and bool(ors & wild) and len(ors) == 2
-                rec = st.ret
-                fself = ('func', scan.name, id(scan))
-                want = {('call', fself, (A(S_, 'left'), A(T_, 'left'), N(res)), ()), ('call', fself, (A(S_, 'right'), A(T_, 'right'), N(res)), ())}
-                want_n = {('call', N(scan.name), (A(S_, 'left'), A(T_, 'left'), N(res)), ()), ('call', N(scan.name), (A(S_, 'right'), A(T_, 'right'), N(res)), ())}
-                gots = set(flat(rec, 'and')) if rec else set()
-                got = sorted(show(x) for x in gots)
-                ff = slash_ok and gots in (want, want_n)
-                detail_ff = 'slash test %s, recursion %s' % ('ok' if slash_ok else 'NOT equal-or-wildcard', sorted(got))
-        last = st.ret
-        if last == C(False) and any(show(c) == show(A(S_, 'is_atomic')) and not pol for c, pol in flatten_all(conds)):
-            fa = True
-    # functor pattern vs atomic input falls through to False: the final return
-    finals = [st.ret for st, out in paths if out == 'return']
-    rep.check(shared_fail, R, w, 'scan:shared-variable', 'a meta variable seen twice must stand for sub-categories equal up to features (else no match)',
-              'no failing path for a repeated meta variable whose second occurrence differs')
-    rep.check(ff, R, w, 'scan:functor-functor', 'functor vs functor needs equal slashes or `|` on either side and matches both sides (%s)' % detail_ff,
-              'functor/functor case is wrong: %s' % detail_ff)
-    rep.check(C(False) in finals, R, w, 'scan:functor-vs-atom', 'a functor pattern never matches an atomic category',
-              'there is no failing path for functor pattern vs atomic input')
+        conds = [(mark_self_calls(c, fn), p) for c, p, _ in st.conds]
+        if out == 'raise':
+            vals.append((conds, 'raise'))
+            continue
+        ret = st.ret if out == 'return' and st.ret is not None else C(None)
+        for g, v in alternatives(mark_self_calls(ret, fn)):
+            vals.append((conds + list(g), v))
+    return paths, vals
+
+
+def r_scan(repo, rep, R='R6.3'):
+    """the structural scan, read as a boolean function of its elementary tests, equals the specification:
+         atomic pattern, variable already bound to something different (up to features)  -> no match
+         functor vs functor  -> (slashes equal or `|` on either side) and left matches and right matches
+         atomic pattern otherwise -> match;  functor pattern vs atomic input -> no match"""
+    mod = repo.module(UNI)
+    scan, deep = matcher_helpers(mod)
+    s, t, res = own_params(scan)
+    S_, T_ = N(s), N(t)
+    w = '%s:%s %s' % (UNI, scan.lineno, qualname_of(scan))
+    paths, vals = _bool_paths(scan, no_inline=(deep.name,))
+    shape = {}
+    for v in (s, t):
+        shape[v] = (('truthy', A(N(v), 'is_functor')), ('truthy', A(N(v), 'is_atomic')))
+
+    def constraint(sigma):
+        return all(not (f in sigma and a in sigma) or sigma[f] != sigma[a] for f, a in shape.values())
+    try:
+        atoms, rows = logic.truth_function(vals, constraint)
+    except ValueError as e:
+        raise AnalysisError('%s: %s tests too many conditions (%s)' % (UNI, scan.name, e))
+    bound = ('sub', A(N('self'), 'cats'), A(S_, 'base'))
+    SEEN = [a for a in atoms if a[0] == 'in' and a[1] == A(S_, 'base') and a[2] == A(N('self'), 'cats')]
+    XOR = [a for a in atoms if a[0] == 'truthy' and a[1][0] == 'binop' and a[1][1] == '^' and {a[1][2], a[1][3]} == {T_, bound}]
+    EQ = [a for a in atoms if a[0] == 'eq' and set(a[1:]) == {A(S_, 'slash'), A(T_, 'slash')}]
+    WILD = [a for a in atoms if (a[0] == 'in' and a[1] == C('|') and a[2][0] in ('tuple', 'list', 'set') and set(a[2][1]) == {A(S_, 'slash'), A(T_, 'slash')})]
+    wild_each = [a for a in atoms if a[0] == 'eq' and C('|') in a[1:] and (set(a[1:]) - {C('|')}) <= {A(S_, 'slash'), A(T_, 'slash')}]
+    if not WILD and len(wild_each) == 2:
+        WILD = wild_each
+    rec = lambda side: ('truthy', ('call', ('selfcall',), (A(S_, side), A(T_, side), N(res)), ()))
+    L, Rr = rec('left'), rec('right')
+
+    def functor(v, sigma):
+        f, a = shape[v]
+        if f in sigma:
+            return sigma[f]
+        if a in sigma:
+            return not sigma[a]
+        return None
+    missing = []
+    if not SEEN or not XOR:
+        missing.append(('scan:shared-variable', 'no test that a meta variable seen before stands for an equal (up to features) sub-category'))
+    if not EQ or not WILD or L not in atoms or Rr not in atoms:
+        missing.append(('scan:functor-functor', 'functor/functor case is wrong: slash equality test %s, `|` wildcard test %s, recursion into left %s, right %s'
+                        % (bool(EQ), bool(WILD), L in atoms, Rr in atoms)))
+    if any(functor(v, dict.fromkeys(atoms, True)) is None for v in (s, t)):
+        missing.append(('scan:functor-vs-atom', 'the scan never tests the shape of both the pattern and the input'))
+    for key, msg in missing:
+        rep.violation(R, w, key, msg)
+    bad = {}
+    n_rows = 0
+    if not missing:
+        for sigma, results in rows:
+            fs, ft = functor(s, sigma), functor(t, sigma)
+            if not fs and logic.any_of(sigma, SEEN) and not logic.any_of(sigma, XOR):
+                want, case = False, 'scan:shared-variable'
+            elif fs and ft:
+                want, case = (logic.any_of(sigma, EQ) or logic.any_of(sigma, WILD)) and sigma[L] and sigma[Rr], 'scan:functor-functor'
+            elif not fs:
+                want, case = True, 'scan:atomic-pattern'
+            else:
+                want, case = False, 'scan:functor-vs-atom'
+            n_rows += 1
+            if results != {want}:
+                bad.setdefault(case, []).append('answers %s instead of %s when %s' % (sorted(map(str, results)), want, logic.show_sigma(sigma, show)))
+    for case, text, bad_text in (
+            ('scan:shared-variable', 'a meta variable seen twice must stand for sub-categories equal up to features (else no match)',
+             'repeated meta variable'),
+            ('scan:functor-functor', 'functor vs functor needs equal slashes or `|` on either side and matches both sides', 'functor/functor case is wrong'),
+            ('scan:atomic-pattern', 'an atomic pattern (variable) matches any category not contradicting an earlier binding', 'atomic pattern case is wrong'),
+            ('scan:functor-vs-atom', 'a functor pattern never matches an atomic category', 'functor pattern vs atomic input')):
+        if any(k == case for k, _ in missing):
+            continue
+        rep.check(case not in bad, R, w, case, text + ' (truth table over %d elementary tests, %d rows)' % (len(atoms), n_rows),
+                  '%s: %s' % (bad_text, '; '.join(bad.get(case, [])[:2])))
+    # the binding is recorded whenever an atomic pattern is accepted
+    okb = True
+    for st, out in paths:
+        conds = [(c, p) for c, p, _ in st.conds]
+        f_atomic = logic.formula(A(S_, 'is_atomic'))
+        atomic = logic.implied(conds, f_atomic) or logic.implied(conds, logic.neg(logic.formula(A(S_, 'is_functor'))))
+        if out == 'return' and atomic and st.ret != C(False) and logic.satisfiable(conds, constraint):
+            sets = [e for e in st.events if e[0] == 'setitem' and e[1] == A(N('self'), 'cats')]
+            okb = okb and len(sets) == 1 and sets[0][2] == A(S_, 'base') and sets[0][3] == T_
+    rep.check(okb, R, w, 'scan:binds', 'an accepted atomic pattern binds its variable to the matched sub-category',
+              'an accepted atomic pattern does not record self.cats[variable] = matched sub-category')
     rep.floor('scan paths', len(paths), 5)
 
 
@@ -97,14 +171,13 @@ def r_scan_deep(repo, rep, R='R6.3'):
     """leaf features of a sub-category bound to a variable are numbered consecutively, left to right"""
     mod = repo.module(UNI)
     scan, sd = matcher_helpers(mod)
-    ps = [a.arg for a in sd.args.args]
-    if len(ps) != 4:
-        raise AnalysisError('%s: scan_deep has parameters %s' % (UNI, ps))
+    ps = own_params(sd)
     s, v, idx, res = ps
-    w = '%s:%s Unification.__call__.%s' % (UNI, sd.lineno, sd.name)
+    w = '%s:%s %s' % (UNI, sd.lineno, qualname_of(sd))
+    is_self = self_call_pred(sd)
 
     def on_call(st, t, node):
-        if t[1][0] == 'func' and t[1][1] == sd.name and len(t[2]) == 4:
+        if is_self(t[1]) and len(t[2]) == 4:
             k = len(st.data.setdefault('rec', []))
             st.data['rec'].append(t[2])
             return ('sym', 'next-free-index', k)
@@ -114,7 +187,7 @@ def r_scan_deep(repo, rep, R='R6.3'):
     for st, o in SymExec(sd, on_call=on_call, init_env={sd.name: ('func', sd.name, id(sd))}).run():
         conds = [(c, pol) for c, pol, _ in st.conds]
         recs = st.data.get('rec', [])
-        is_fun = (A(N(s), 'is_functor'), True) in conds or (A(N(s), 'is_atomic'), False) in conds
+        is_fun = logic.implied(conds, logic.formula(A(N(s), 'is_functor'))) or logic.implied(conds, logic.neg(logic.formula(A(N(s), 'is_atomic'))))
         if is_fun:
             ok = len(recs) == 2 and recs[0][0] == A(N(s), 'left') and recs[0][2] == N(idx) and recs[1][0] == A(N(s), 'right') and \
                 recs[1][2] == ('sym', 'next-free-index', 0) and st.ret == ('sym', 'next-free-index', 1) and \
@@ -123,17 +196,24 @@ def r_scan_deep(repo, rep, R='R6.3'):
             detail.append('functor: %s -> %s' % ([show(r[2]) for r in recs], show(st.ret) if st.ret else None))
         else:
             sets = [(e[2], e[3]) for e in st.events if e[0] == 'setitem' and e[1] == N(res)]
-            ok = len(sets) == 1 and sets[0][0] == ('fstr', (N(v), N(idx))) and sets[0][1] == A(N(s), 'feature') and \
+            ok = len(sets) == 1 and str_parts(sets[0][0]) == [N(v), N(idx)] and sets[0][1] == A(N(s), 'feature') and \
                 st.ret in (('binop', '+', N(idx), C(1)), ('binop', '+', C(1), N(idx))) and not recs
             leaf_ok = ok
             detail.append('leaf: %s -> %s' % ([(show(a), show(b)) for a, b in sets], show(st.ret) if st.ret else None))
     rep.check(leaf_ok and fun_ok, R, w, 'scan_deep:leaf-numbering',
               'every leaf gets the next free index and the right side continues where the left side stopped (%s)' % '; '.join(detail),
               'the leaves under a variable are not numbered consecutively left to right, so features at corresponding positions are not the ones compared: %s' % '; '.join(detail))
-    starts = [n for n in ast.walk(scan) if isinstance(n, ast.Call) and src(n.func) == sd.name]
-    ok = len(starts) == 1 and len(starts[0].args) == 4 and src(starts[0].args[2]) == '0'
-    rep.check(ok, R, '%s:%s Unification.__call__.%s' % (UNI, scan.lineno, scan.name), 'scan_deep:start', 'numbering starts at 0 for each variable occurrence',
-              'scan_deep is started with %s' % [src(a) for a in starts[0].args] if starts else 'no call')
+    # started at 0 with the input, the variable name and the feature table of the side being scanned
+    s2, t2, res2 = own_params(scan)
+    is_deep = self_call_pred(sd)
+    starts = []
+    for st, o in SymExec(scan, no_inline=(sd.name,)).run():
+        for c_ in all_calls(st):
+            if is_deep(c_[1]) and c_[2] not in starts:
+                starts.append(c_[2])
+    ok = starts == [(N(t2), A(N(s2), 'base'), C(0), N(res2))]
+    rep.check(ok, R, '%s:%s %s' % (UNI, scan.lineno, qualname_of(scan)), 'scan_deep:start', 'numbering starts at 0 for each variable occurrence',
+              'the leaf numbering is started with %s' % [[show(a) for a in st_] for st_ in starts])
 
 
 def flatten_all(conds):
